@@ -80,6 +80,75 @@ func c18Opts(rng *lib.Rand, ft byte) lib.GenOpts {
 			}
 			return 0, false
 		},
+		PostData: c18Correlate,
+	}
+}
+
+// c18Slices: (source, destination, shift, bits) of every component rule, in evaluation order.
+var c18Slices = map[uint16][][4]int{
+	ref.MesgRecord:     {{2, 78, 0, 16}, {6, 73, 0, 16}, {8, 6, 0, 12}, {8, 5, 12, 12}, {18, 19, 0, 8}, {28, 29, 0, 16}},
+	ref.MesgLap:        {{13, 110, 0, 16}, {14, 111, 0, 16}, {42, 112, 0, 16}, {43, 114, 0, 16}, {62, 113, 0, 16}},
+	ref.MesgSession:    {{14, 124, 0, 16}, {15, 125, 0, 16}, {49, 126, 0, 16}, {50, 128, 0, 16}, {71, 127, 0, 16}},
+	ref.MesgSegmentLap: {{34, 91, 0, 16}, {35, 92, 0, 16}, {54, 93, 0, 16}},
+	ref.MesgEvent:      {{2, 3, 0, 16}, {3, 7, 0, 16}, {3, 8, 16, 16}, {3, 11, 0, 8}, {3, 12, 8, 8}, {3, 9, 16, 8}, {3, 10, 24, 8}},
+}
+
+var c18Correlated int64
+
+// c18Correlate makes, in 40 % of the data records, destinations that are on the wire together
+// with their source depend on it the way a device fills both: the destination's wire value is
+// the source's slice, or next to it, or the slice with arbitrary higher bits.
+func c18Correlate(r *lib.Rand, def *ref.Record, data [][]byte) {
+	rules := c18Slices[def.Global]
+	if len(rules) == 0 || !r.Chance(4, 10) {
+		return
+	}
+	at := func(num int) int {
+		for i, fd := range def.Fields {
+			if int(fd.Num) == num {
+				return i
+			}
+		}
+		return -1
+	}
+	for _, ru := range rules {
+		si, di := at(ru[0]), at(ru[1])
+		if si < 0 || di < 0 || !r.Chance(7, 10) {
+			continue
+		}
+		sfd, dfd := def.Fields[si], def.Fields[di]
+		sb, ok1 := ref.BaseByCode(sfd.Base)
+		db, ok2 := ref.BaseByCode(dfd.Base)
+		if !ok1 || !ok2 || int(dfd.Size) != db.Size || db.Size > 4 {
+			continue
+		}
+		var src uint64
+		if sb.Size == 1 {
+			if int(sfd.Size) > 8 {
+				continue
+			}
+			for i := int(sfd.Size) - 1; i >= 0; i-- {
+				src = src<<8 | uint64(data[si][i])
+			}
+		} else if int(sfd.Size) == sb.Size {
+			src = ref.Get(data[si], sb.Size, def.Arch)
+		} else {
+			continue
+		}
+		mask := uint64(1)<<uint(ru[3]) - 1
+		v := src >> uint(ru[2]) & mask
+		switch r.Intn(5) {
+		case 1:
+			v++
+		case 2:
+			v--
+		case 3:
+			v |= uint64(1+r.Intn(0xFFFF)) << uint(ru[3])
+		case 4:
+			v |= ^mask
+		}
+		ref.Put(data[di], v, db.Size, def.Arch)
+		c18Correlated++
 	}
 }
 
@@ -135,6 +204,10 @@ func c18Case(c *lib.Ctx, idx uint64) {
 		if !c18Compare(c, p, files[i], chain) {
 			okAll = false
 		}
+	}
+	if c18Correlated > 0 {
+		c.Count("destinations_written_in_correlation_with_their_source", c18Correlated)
+		c18Correlated = 0
 	}
 	if okAll {
 		c.Count("cases_fully_conforming_or_known", 1)
